@@ -39,6 +39,16 @@ def shl (bits : Nat) (prof : Profile) (x n : Nat) : Outcome Nat :=
 def shr (bits : Nat) (prof : Profile) (x n : Nat) : Outcome Nat :=
   if n ≥ bits then (if prof.oc then .panic .arith else .ok (x >>> (n % bits))) else .ok (x >>> n)
 
+/-- `x << n` on a signed type: overflow check on the shift amount only (masked without it), shifted-out bits are dropped -/
+def shlI (ty : IntTy) (prof : Profile) (x : Int) (n : Nat) : Outcome Int :=
+  if n ≥ ty.bits then (if prof.oc then .panic .arith else .ok (ty.cast (x * 2 ^ (n % ty.bits)))) else .ok (ty.cast (x * 2 ^ n))
+
+/-- `f64::is_infinite`, `f64::is_nan`, `f32::…` on the bit pattern (IEEE 754 binary64 / binary32 encodings) -/
+def f64_is_infinite (b : Nat) : Bool := b % 2 ^ 63 == 0x7ff0000000000000
+def f64_is_nan (b : Nat) : Bool := b % 2 ^ 63 > 0x7ff0000000000000
+def f32_is_infinite (b : Nat) : Bool := b % 2 ^ 31 == 0x7f800000
+def f32_is_nan (b : Nat) : Bool := b % 2 ^ 31 > 0x7f800000
+
 def divU (x y : Nat) : Outcome Nat := if y = 0 then .panic .rdivzero else .ok (x / y)
 def remU (x y : Nat) : Outcome Nat := if y = 0 then .panic .rdivzero else .ok (x % y)
 
